@@ -296,6 +296,9 @@ func (c *vCPWorlds) get(kind string) *vWorld {
 	switch kind {
 	case "ed25519ca":
 		o.Ed25519 = true
+	case "ed25519ca_listed":
+		o.Ed25519 = true
+		o.PrePublished = []crypto.PublicKey{&vCAKey.PublicKey}
 	case "realm":
 		o.Realm = "EXAMPLE.COM"
 	case "ext1":
@@ -451,6 +454,8 @@ func (w *vWorld) execCertPolicy(c map[string]interface{}) (map[string]interface{
 			other = "alice"
 		}
 		switch vStr(c, "target") {
+		case "typed":
+			esc = url.PathEscape(typed)
 		case "other/self":
 			esc = other + "/" + url.PathEscape(norm)
 		case "self/":
